@@ -1261,7 +1261,10 @@ func (ctx *RenderContext) getItem(container, index interface{}) (interface{}, er
 			keyType := v.Type().Key()
 			indexValue := reflect.ValueOf(index)
 
-			if indexValue.IsValid() && indexValue.CanConvert(keyType) {
+			// (a number becomes a string key by its decimal form, below: Go's own conversion
+			// would make it the character with that code)
+			if indexValue.IsValid() && indexValue.CanConvert(keyType) &&
+				(keyType.Kind() != reflect.String || indexValue.Kind() == reflect.String) {
 				mapKey = indexValue.Convert(keyType)
 			} else {
 				// Try string conversion for the key
